@@ -30,6 +30,14 @@ CHECKS = {
                 text="Reader.tla (ChunkReader + HttpRangeRequest + read_at + IoChunkReader) model-checked over chunk lists x retry budgets x every server behaviour at every byte offset x every body fragmentation; all behaviours replayed against the real HttpReader (whole bodies and 1-byte fragments) and IoReader (short reads, Pending); server log drives the model, consumer log must equal what the model delivered.",
                 note="cut = FIN after k bytes of a longer Content-Length (D9); one connection per request",
                 tech="TLA+ spec + TLC exhaustive fault enumeration; TLC-generated behaviours replayed; TLC trace validation"),
+    "C09": dict(cat="model_checking", design="6 C09",
+                text="Chunker.tla (StreamingChunker + RollingHashChunker::next written as the code is, hashers reduced to which values their window holds, hash uninterpreted) model-checked against its declarative reference for every stream, every trigger predicate and every read splitting of the bound; the real chunker is run on every string up to length 6 (8) over a 3-value alphabet x 238 configurations under TLC-generated read scripts and on large streams; ChunkerTrace.tla judges tiling, min/max, read independence and - via an inferred trigger function per (algorithm, window, bits) - the first-match rule.",
+                note="D2 hash uninterpreted; D3 warm-up positions (<= window) constrained by tiling/min/max only",
+                tech="TLA+ spec + TLC (machine = declarative reference); exhaustive small-scope replay on the real chunker; TLC trace validation with inferred trigger function"),
+    "C10": dict(cat="model_checking", design="6 C10",
+                text="Resync stated on Chunker.tla's reference (machine = reference by ReadIndependent; NoBad = every boundary test is made on the stream's trailing window) model-checked over all prefix pairs / suffixes / trigger predicates of the bound, with the pre-repair BuzHash initial state as a negative configuration that must fail; on the real chunker all prefix pairs up to length 2 x suffixes up to length 5 (7) over 3 values x 12 (algorithm, window, bits) groups plus thousands of large random pairs (zero-run prefixes included) are chunked and ChunkerTrace.tla evaluates the property literally on the boundaries.",
+                note="D2 hash uninterpreted",
+                tech="TLA+ spec + TLC; exhaustive small-scope and randomized large pairs on the real chunker; TLC trace validation"),
     "C13": dict(cat="model_checking", design="6 C13",
                 text="WriteDiscipline (W1 whole source chunk at one of its offsets, W2 once, W3 never an in-place location, W4 nothing beyond the source) as a rule on every WriteOut step of Clone.tla, model-checked; every write of every replayed scenario on the real code is validated against the same rule by TLC.",
                 note="writes observed at the AsyncWrite boundary of an instrumented in-memory file with content projected to chunk cells",
